@@ -312,7 +312,7 @@ def _compare_paths(live_paths, ref_paths, effects, outcome_norm, rn,
 
     def norm(p):
         o = norm_outcome(p, effects, outcome_norm)
-        return _rename(o, rn)
+        return _renumber(_rename(o, rn))
 
     vocab = set()
     for p in ref_paths:
@@ -424,6 +424,28 @@ def case_sensitive_atoms(program, fi, **kw):
                         if txt not in bad:
                             bad.append(txt)
     return bad
+
+
+def _renumber(o):
+    """Fresh containers are numbered in creation order; two independent
+    creations in the other order are the same behaviour.  Renumber by first
+    appearance in the (order-normalised) outcome."""
+    import re as _re
+    seen = {}
+
+    def sub(mo):
+        k = mo.group(0)
+        if k not in seen:
+            seen[k] = "%s#%d" % (mo.group(1), len(seen) + 1)
+        return seen[k]
+
+    def walk(x):
+        if isinstance(x, tuple):
+            return tuple(walk(y) for y in x)
+        if isinstance(x, str):
+            return _re.sub(r"(\[\]|\{\})#(\d+)", sub, x)
+        return x
+    return walk(o)
 
 
 def _compatible(rval, known):
